@@ -158,3 +158,48 @@ func VfC15Reorder() {
 	}
 	vf.Reach("done")
 }
+
+// VfC15Duplex: one session carries both directions (in key / receive windows
+// for peer->me, out key / send counters for me->peer). One operation from an
+// arbitrary state must leave the OTHER direction alone:
+//   - receiving (In + Check), whatever it does to the in key and the receive
+//     windows, changes neither the out key nor a send counter: otherwise the
+//     next frames sent would repeat sequence numbers under the unchanged out
+//     key (AEAD nonce reuse);
+//   - sending (Out), whatever it does to the out key and the send counters,
+//     changes neither the in key nor a receive window: otherwise frames the
+//     peer sealed earlier under the unchanged in key would be accepted again.
+func VfC15Duplex() {
+	s := VfEncSession(vf.NewAEAD(1), vf.NewAEAD(2))
+	s.inKey, s.outKey = []byte{1}, []byte{2}
+	s.reglSeqHandler.highest, s.reglSeqHandler.bitMap = vf.U32(), vf.U64()
+	s.prioSeqHandler.highest, s.prioSeqHandler.bitMap = vf.U32(), vf.U64()
+	s.reglSeqHandler.outSeq.Store(vf.U32())
+	s.prioSeqHandler.outSeq.Store(vf.U32())
+	rh, rb, ph, pb := s.reglSeqHandler.highest, s.reglSeqHandler.bitMap, s.prioSeqHandler.highest, s.prioSeqHandler.bitMap
+	ro, po := s.reglSeqHandler.outSeq.Load(), s.prioSeqHandler.outSeq.Load()
+	prio := vf.Bool()
+	if vf.Bool() {
+		seq := vf.U32()
+		c, err := s.In(seq, prio)
+		if err == nil && vfKeyID(c) == vfKeyID(s.inCipher) {
+			_ = s.Check(seq, prio)
+		}
+		if vfKeyID(s.inCipher) != 1 {
+			vf.Reach("in-key-rolled")
+		}
+		vf.Assert(vfKeyID(s.outCipher) == 2 && len(s.outKey) == 1 && s.outKey[0] == 2, "receiving-changed-the-out-key")
+		vf.Assert(s.reglSeqHandler.outSeq.Load() == ro, "receiving-changed-the-regular-send-counter")
+		vf.Assert(s.prioSeqHandler.outSeq.Load() == po, "receiving-reset-the-priority-send-counter-under-an-unchanged-out-key")
+		vf.Reach("received")
+		return
+	}
+	_, _, _, _, _ = s.Out(prio)
+	if vfKeyID(s.outCipher) != 2 {
+		vf.Reach("out-key-rolled")
+	}
+	vf.Assert(vfKeyID(s.inCipher) == 1 && len(s.inKey) == 1 && s.inKey[0] == 1, "sending-changed-the-in-key")
+	vf.Assert(s.reglSeqHandler.highest == rh && s.reglSeqHandler.bitMap == rb, "sending-changed-the-regular-receive-window")
+	vf.Assert(s.prioSeqHandler.highest == ph && s.prioSeqHandler.bitMap == pb, "sending-reset-the-priority-receive-window-under-an-unchanged-in-key")
+	vf.Reach("sent")
+}
